@@ -75,7 +75,7 @@ pub fn rb(s: &mut Src, mix: Mix) -> Rb {
         0 => 0,
         1 => 0xff_ffff,
         2 => 1,
-        3 if mix == Mix::Limit => s.pick(&[0x100_0000u32, 0xffff_ffff, 0x8000_0000, 0x1ff_ffff]),
+        3 if mix == Mix::Limit => s.pick(&[0x100_0000u32, 0xffff_ffff, 0x8000_0000, 0x1ff_ffff, 0xff80_0000, 0xff7f_ffff, 0xffff_fffe, 0xff00_0000]),
         4 if mix == Mix::Limit => s.u32(),
         _ => s.u32() & 0xff_ffff,
     };
